@@ -4,7 +4,7 @@ from common import *
 import treegen, lexgen
 
 PID = "C01"
-TARGETS = ["Run.vo", "Lexer_proofs.vo", "Tree_proofs.vo", "Conv_proofs.vo", "Lists_proofs.vo"]
+TARGETS = ["Run.vo", "Lexer_proofs.vo", "Tree_proofs.vo", "Conv_proofs.vo", "Lists_proofs.vo", "NonVacuous/C01.vo"]
 IMPORTS = "From VF Require Import Base Show Gen_Errors Lexer Response Conv Tree Scripted Run."
 ALLOWED_AXIOMS = []
 PROFILES = ["debug", "release"]
